@@ -247,6 +247,21 @@ def run(ctx: core.Ctx):
             np.random.seed(ctx.seed + 31 * b)
             for k in range(6):
                 ev_big += run_events(src_a, c, ids, cid, cid, src_obj=src, inv=inv)
+    # proportion sampling with a ratio below 1/n (the at-least-one rule) on class sizes at which
+    # fl(fl(1/n) * n) != 1 (49, 98, 103, 107), and a few ordinary ones
+    for b, (npos, nneg) in enumerate([(49, 98), (103, 107), (50, 100), (7, 161)]):
+        src_a = {"pos": sorted(int(x) for x in rnd.randint(0, 250, npos)),
+                 "neg": sorted(int(x) for x in rnd.randint(0, 250, nneg)),
+                 "ep": int(rnd.randint(0, 3)), "en": 0, "sc": ["pos", "neg"][b % 2], "ec": "pos"}
+        for ratio in ([1, 1000], [1, 150], [1, 40]):
+            c = {"method": "proportion", "strat": "none", "ratio": ratio}
+            cid = len(cases)
+            cases.append({"kind": "many_easy", "src": src_a, "cfg": c, "np_seed": ctx.seed + 5 * b})
+            src = sd.build(src_a, G)
+            inv = sd.inv_map(G, -2, 300)
+            np.random.seed(ctx.seed + 5 * b)
+            for k in range(3):
+                ev_big += run_events(src_a, c, ids, cid, cid, src_obj=src, inv=inv)
     # few scored samples, many easy ones: 'dynamic' must still resolve on the SCORED class sizes
     for b in range(2):
         src_a = {"pos": sorted(int(x) for x in rnd.randint(0, 40, 7)), "neg": sorted(int(x) for x in rnd.randint(0, 40, 5)),
